@@ -15,6 +15,15 @@ PAIR_ATTRS = {"elts": "starred", "args": "starred", "keys": "none-key", "values"
 
 
 def check(repo: Repo, rep, tier):
+    _check(repo, rep, tier)
+    from .C11 import align_complete
+    from .C18 import nested_drop
+
+    nested_drop(repo, rep)
+    align_complete(repo, rep)
+
+
+def _check(repo: Repo, rep, tier):
     rep.not_decided = "dirty-equals itself (package absent here; covered symbolically through is_dirty_equal/update_allowed); what a user wrapper's __eq__ does"
     wrap_at_entry(repo, rep)
     map_total(repo, rep)
@@ -56,8 +65,29 @@ def wrap_at_entry(repo: Repo, rep):
             return bool(r and r[0] == "func" and r[1].key == "_unmanaged.py::map_unmanaged")
         return False
 
+    def always_wrapped(n):
+        """on EVERY path the stored value is the result of the wrap call (a conditional wrap leaves the raw argument on the other path)"""
+        v = n.ast.value
+        if is_wrap_call(v):
+            return True
+        if not isinstance(v, ast.Name):
+            return False
+        ds = reaching_defs(cfg, n, v.id)
+        if not ds:
+            return False
+        for d in ds:
+            dv = def_value(d, v.id)
+            if dv is None or not is_wrap_call(dv):
+                return False
+        # a parameter has no definition node: a path that passes none of the wrap definitions carries the raw argument
+        from ..cfg import nodes_dominate
+
+        return nodes_dominate(cfg, ds, n)
+
     for n in stores:
-        if derives_from(cfg, n, n.ast.value, is_wrap_call):
+        if derives_from(cfg, n, n.ast.value, is_wrap_call) and not always_wrapped(n):
+            rep.violation("R-WRAP-AT-ENTRY", init, n.ast, "the snapshot argument is wrapped (adapter_map(..., map_unmanaged)) only on some paths: on the others Is()/dirty-equals values that reach the snapshot through a name are stored raw, compared and rewritten like plain values", construct="init-store-conditional")
+        elif derives_from(cfg, n, n.ast.value, is_wrap_call):
             rep.ok("R-WRAP-AT-ENTRY", init, n.ast, "_old_value = adapter_map(arg, map_unmanaged)")
         else:
             rep.violation("R-WRAP-AT-ENTRY", init, n.ast, "the snapshot argument is stored without wrapping its unmanaged parts (adapter_map(..., map_unmanaged)): Is()/dirty-equals values are then compared and rewritten like plain values", construct="init-store")
@@ -520,6 +550,16 @@ def reeval_refresh(repo: Repo, rep):
     if not uc:
         rep.violation("R-REEVAL-REFRESH", f, f.node, "re-evaluation no longer treats Unmanaged values separately: a changed Is(...) value raises 'snapshot value should not change'", construct="no-test")
         return
+    # the Unmanaged test comes first: an assert / raise in front of it also hits unmanaged values, whose type and value may
+    # legitimately differ between evaluations (an inner snapshot() changes its class on first use, Is(x) holds anything)
+    before = reach(cfg, [cfg.entry], blocked_nodes=uc)
+    early = [n for n in before if n.kind == "assertfail" or (n.kind == "stmt" and isinstance(n.ast, (ast.Raise, ast.Assert)))]
+    early_asserts = [a for a in body_nodes(f.node) if isinstance(a, ast.Assert) and any(n.ast is a or (n.ast is not None and any(y is a.test for y in ast.walk(n.ast))) for n in before if n.ast is not None)]
+    if early or early_asserts:
+        where = (early_asserts[0] if early_asserts else early[0].ast)
+        rep.violation("R-REEVAL-REFRESH", f, where, f"`{short(where, 60)}` is checked before the Unmanaged test of the re-evaluation: it also applies to Is(...) values and inner snapshots, whose type/value may differ from the first evaluation - the documented `snapshot(a) if c else snapshot(b)` pattern raises AssertionError on its second evaluation", construct="check-before-unmanaged")
+    else:
+        rep.ok("R-REEVAL-REFRESH", f, uc[0].ast, "the Unmanaged test is the first decision of the re-evaluation")
     for c in uc:
         t = [b for b, l in c.succ if l == "T"]
         sets = [n for n in cfg.stmts(ast.Assign) if any(isinstance(x, ast.Attribute) and x.attr == "value" and norm(x.value) == old for x in n.ast.targets)]
